@@ -276,6 +276,11 @@ def check(ctx, pid, clauses, scenarios, mc_runs, gen_stats, extra_viols=None, ex
                           "PartitionConsumer; the application view is validated by TLC against the Visible oracle (spec/ConsumerObsTrace.tla)"}
     if extra_cov:
         cov["producer_part"] = extra_cov
+    if pid == "C03" and ctx.tier == "thorough":
+        # the repository's own consumer tests, run with the hooks on: every responseFeeder they start must be explained by
+        # the model's feeder state machine (spec/FeederConfTrace.tla); soft
+        import reposuite
+        cov["repo_suite_feeder_conformance"] = reposuite.run(ctx, {"pc"}, run_pattern="Consumer")
     return vlib.finish(ctx, "model_checking", cov, mine,
                        ["the simulated broker is faithful: a response starts with the batch containing the requested offset, never skips, "
                         "high-water mark = log end, aborted index = all aborted transactions overlapping the returned range (either order), "
